@@ -55,13 +55,21 @@ Definition set16 (off v : N) (f : frame) : frame := setb (off + 1) (N.shiftr v 8
 Definition set32 (off v : N) (f : frame) : frame :=
   setb (off + 3) (N.shiftr v 24) (setb (off + 2) (N.shiftr v 16) (setb (off + 1) (N.shiftr v 8) (setb off v f))).
 
-(* ---- checked access: width w at offset off is inside the frame iff off + w <= len *)
-Definition rd8 (off : N) : M N := fun f => if off + 1 <=? flen f then Val (getb off f) f else OOB.
-Definition rd16 (off : N) : M N := fun f => if off + 2 <=? flen f then Val (get16 off f) f else OOB.
-Definition rd32 (off : N) : M N := fun f => if off + 4 <=? flen f then Val (get32 off f) f else OOB.
-Definition wr8 (off v : N) : M unit := fun f => if off + 1 <=? flen f then Val tt (setb off v f) else OOB.
-Definition wr16 (off v : N) : M unit := fun f => if off + 2 <=? flen f then Val tt (set16 off v f) else OOB.
-Definition wr32 (off v : N) : M unit := fun f => if off + 4 <=? flen f then Val tt (set32 off v f) else OOB.
+(* ---- checked access: width w at offset off is inside the frame iff off + w <= len.
+   [has_bytes n f] decides n <= len f by walking to byte n-1 instead of measuring the whole frame
+   (PktMonadProofs.has_bytes_spec: has_bytes n f = (n <=? flen f)); this only matters for the speed
+   of evaluating the Model on 1600-byte frames. *)
+Definition has_bytes (n : N) (f : frame) : bool :=
+  match n with
+  | 0 => true
+  | _ => match skipn (N.to_nat (n - 1)) f with [] => false | _ :: _ => true end
+  end.
+Definition rd8 (off : N) : M N := fun f => if has_bytes (off + 1) f then Val (getb off f) f else OOB.
+Definition rd16 (off : N) : M N := fun f => if has_bytes (off + 2) f then Val (get16 off f) f else OOB.
+Definition rd32 (off : N) : M N := fun f => if has_bytes (off + 4) f then Val (get32 off f) f else OOB.
+Definition wr8 (off v : N) : M unit := fun f => if has_bytes (off + 1) f then Val tt (setb off v f) else OOB.
+Definition wr16 (off v : N) : M unit := fun f => if has_bytes (off + 2) f then Val tt (set16 off v f) else OOB.
+Definition wr32 (off v : N) : M unit := fun f => if has_bytes (off + 4) f then Val tt (set32 off v f) else OOB.
 
 (* k consecutive byte loads / stores (the unrolled `for (i = 0; i < K; i++)` loops of the C) *)
 Fixpoint rd_bytes (k : nat) (off : N) : M (list N) :=
